@@ -77,6 +77,11 @@ pub fn vx_max_i32(a: i32, b: i32) -> (r: i32) ensures r == (if a >= b { a } else
 pub assume_specification<T, A: std::alloc::Allocator>[ VecDeque::<T, A>::is_empty ](q: &VecDeque<T, A>) -> (r: bool)
     ensures r == (q@.len() == 0);
 
+pub assume_specification<T, A: std::alloc::Allocator>[ VecDeque::<T, A>::swap_remove_back ](q: &mut VecDeque<T, A>, index: usize) -> (r: Option<T>)
+    ensures
+        index < old(q)@.len() ==> r == Some(old(q)@[index as int]) && final(q)@ == old(q)@.update(index as int, old(q)@.last()).drop_last(),
+        index >= old(q)@.len() ==> r is None && final(q)@ == old(q)@;
+
 type Queue = VecDeque<NodeRef>;
 
 // trusted: the debug-only length recomputation (iterator sum) as an uninterpreted total
@@ -105,6 +110,14 @@ impl AdjustHeightsHeap {
     spec fn mha(&self) -> int { self.queues.len() - 1 }
     spec fn wf(&self) -> bool { 1 <= self.queues.len() <= 0x7fff_ffff }
     spec fn inv(&self) -> bool { self.wf() && 0 <= self.max_height_seen <= self.mha() }
+    /// the walk's invariant (Invariant::invariant in the real code): nothing is queued below the lower bound; and a
+    /// non-zero length means some bucket at or above it holds a node
+    spec fn walk_inv(&self) -> bool {
+        &&& self.wf()
+        &&& 0 <= self.height_lower_bound
+        &&& forall|i: int| 0 <= i < self.queues@.len() && i < self.height_lower_bound ==> (#[trigger] self.queues@[i])@.len() == 0
+        &&& (self.length > 0 ==> exists|j: int| self.height_lower_bound <= j < self.queues@.len() && (#[trigger] self.queues@[j])@.len() > 0)
+    }
 
 //@extract fn AdjustHeightsHeap::is_empty
 //@ file: src/adjust_heights_heap.rs
@@ -181,6 +194,38 @@ impl AdjustHeightsHeap {
 //@|         final(self).inv(), // [invariant-preserved]
 //@|         final(self).mha() == old(self).mha() && final(self).max_height_seen == old(self).max_height_seen, // [limit-and-max-seen-unchanged]
 //@|         final(self).length == old(self).length + (if node_height_in_ahh(&*node) == -1 { 1int } else { 0int }), // [length-counts-the-insertion]
+//@end
+
+//@extract fn AdjustHeightsHeap::remove_min
+//@ file: src/adjust_heights_heap.rs
+//@ impl: impl AdjustHeightsHeap
+//@ name: remove_min
+//@ as: fn remove_min(&mut self) -> (r: Option<NodeRef>)
+//@ attr: #[verifier::exec_allows_no_decreases_clause]
+//@ props: C11 C19
+//@ contract:
+//@|     requires old(self).walk_inv(),
+//@|     ensures
+//@|         old(self).length == 0 ==> r is None && *final(self) == *old(self), // [nothing-queued-nothing-returned-nothing-changed]
+//@|         old(self).length > 0 ==> r is Some, // [a-queued-node-is-always-found]
+//@|         r is Some ==> old(self).height_lower_bound <= final(self).height_lower_bound < old(self).queues@.len(), // [lower-bound-only-rises-to-the-bucket-served]
+//@|         r is Some ==> (forall|i: int| 0 <= i < final(self).height_lower_bound ==> (#[trigger] old(self).queues@[i])@.len() == 0), // [no-node-was-queued-at-a-lower-height]
+//@|         r is Some ==> old(self).queues@[final(self).height_lower_bound as int]@.len() > 0 && r.unwrap() == old(self).queues@[final(self).height_lower_bound as int]@[0], // [returns-the-oldest-node-of-the-lowest-non-empty-bucket]
+//@|         r is Some ==> final(self).queues@.len() == old(self).queues@.len() && final(self).queues@[final(self).height_lower_bound as int]@ == old(self).queues@[final(self).height_lower_bound as int]@.subrange(1, old(self).queues@[final(self).height_lower_bound as int]@.len() as int), // [exactly-that-node-leaves-its-bucket]
+//@|         r is Some ==> (forall|i: int| 0 <= i < old(self).queues@.len() && i != final(self).height_lower_bound ==> (#[trigger] final(self).queues@[i]) == old(self).queues@[i]), // [other-buckets-untouched]
+//@|         r is Some ==> final(self).length == old(self).length - 1 && final(self).max_height_seen == old(self).max_height_seen, // [one-less-queued]
+//@ loop 0:
+//@|     invariant_except_break
+//@|         0 <= old(self).height_lower_bound <= height, self.queues@ =~= old(self).queues@, self.queues@.len() <= 0x7fff_ffff, self.length == old(self).length, self.length > 0,
+//@|         self.height_lower_bound == old(self).height_lower_bound, self.max_height_seen == old(self).max_height_seen,
+//@|         forall|i: int| 0 <= i < height && i < old(self).queues@.len() ==> (#[trigger] old(self).queues@[i])@.len() == 0,
+//@|         exists|j: int| height <= j < old(self).queues@.len() && (#[trigger] old(self).queues@[j])@.len() > 0,
+//@|     ensures
+//@|         0 <= old(self).height_lower_bound <= height < old(self).queues@.len(), self.length == old(self).length, self.length > 0,
+//@|         self.height_lower_bound == old(self).height_lower_bound, self.max_height_seen == old(self).max_height_seen,
+//@|         forall|i: int| 0 <= i < height ==> (#[trigger] old(self).queues@[i])@.len() == 0,
+//@|         *q == old(self).queues@[height as int], q@.len() > 0,
+//@|         self.queues@ == old(self).queues@.update(height as int, *final(q)),
 //@end
 
 //@extract fn AdjustHeightsHeap::set_max_height_allowed
@@ -272,6 +317,16 @@ impl AdjustHeightsHeap {
 // ---- RecomputeHeap (R5 on queues / height_lower_bound / length; the per-bucket RefCell is erased too) ----
 type RQueue = VecDeque<NodeRef>;
 
+// R8: `q.iter().position(|x| rc_thin_ptr_eq(x, node))` (std Iterator::position over the bucket) as a trusted helper:
+// the first index holding that node, None if there is none
+#[verifier::external_body]
+fn vx_position_same_node(q: &RQueue, node: &NodeRef) -> (r: Option<usize>)
+    ensures
+        r is Some ==> r.unwrap() < q@.len() && same_node(&*q@[r.unwrap() as int], &**node)
+            && forall|k: int| 0 <= k < r.unwrap() ==> !same_node(&*#[trigger] q@[k], &**node),
+        r is None ==> forall|k: int| 0 <= k < q@.len() ==> !same_node(&*#[trigger] q@[k], &**node),
+{ unimplemented!() }
+
 //@extract struct RecomputeHeap
 //@ file: src/recompute_heap.rs
 //@ name: RecomputeHeap
@@ -289,6 +344,18 @@ impl RecomputeHeap {
     }
     spec fn buckets_empty_from(&self, from: int) -> bool {
         forall|i: int| from <= i < self.queues@.len() ==> (#[trigger] self.queues@[i])@.len() == 0
+    }
+    /// some node is queued at height >= from
+    spec fn has_nonempty_from(&self, from: int) -> bool {
+        exists|j: int| from <= j < self.queues@.len() && (#[trigger] self.queues@[j])@.len() > 0
+    }
+    /// the scheduler's invariant: no node is queued below the lower bound, and if the length says that something is
+    /// queued then some bucket at or above the lower bound holds a node
+    spec fn sched_inv(&self) -> bool {
+        &&& self.wf()
+        &&& self.lower_bound_ok()
+        &&& 0 <= self.height_lower_bound
+        &&& (self.length > 0 ==> self.has_nonempty_from(self.height_lower_bound as int))
     }
 
 //@extract fn RecomputeHeap::new
@@ -423,6 +490,115 @@ impl RecomputeHeap {
 //@|         forall|i: int| 0 <= i < old(self).queues@.len() && i != node_height(&*node) ==> final(self).queues@[i] == old(self).queues@[i], // [other-buckets-untouched]
 //@end
 
+//@extract fn RecomputeHeap::unlink
+//@ file: src/recompute_heap.rs
+//@ impl: impl RecomputeHeap
+//@ name: unlink
+//@ as: fn unlink(&mut self, node: &NodeRef)
+//@ rule R5: `let mut q = queue.borrow_mut();` => `let q = queue;` x1
+//@ rule R8: `q.iter().position(|x| rc_thin_ptr_eq(x, node))` => `vx_position_same_node(q, node)` x1
+//@ props: C05 C06 C11 C19
+//@ contract:
+//@|     requires
+//@|         old(self).wf(), 0 <= node_height_in_rch(&**node) <= old(self).mha(),
+//@|         exists|k: int| 0 <= k < old(self).queues@[node_height_in_rch(&**node) as int]@.len() && same_node(&*#[trigger] old(self).queues@[node_height_in_rch(&**node) as int]@[k], &**node),     // it is queued where it says it is
+//@|     ensures
+//@|         final(self).queues@.len() == old(self).queues@.len(), // [limit-unchanged]
+//@|         final(self).queues@[node_height_in_rch(&**node) as int]@.len() == old(self).queues@[node_height_in_rch(&**node) as int]@.len() - 1, // [one-node-leaves-the-bucket-it-was-queued-in]
+//@|         forall|i: int| 0 <= i < old(self).queues@.len() && i != node_height_in_rch(&**node) ==> (#[trigger] final(self).queues@[i]) == old(self).queues@[i], // [other-buckets-untouched]
+//@|         final(self).height_lower_bound == old(self).height_lower_bound && final(self).length == old(self).length, // [frame]
+//@end
+
+//@extract fn RecomputeHeap::unlink!not_queued
+//@ file: src/recompute_heap.rs
+//@ impl: impl RecomputeHeap
+//@ name: unlink
+//@ as: fn unlink__not_queued_must_panic(&mut self, node: &NodeRef)
+//@ panics: diverge
+//@ rule R5: `let mut q = queue.borrow_mut();` => `let q = queue;` x1
+//@ rule R8: `q.iter().position(|x| rc_thin_ptr_eq(x, node))` => `vx_position_same_node(q, node)` x1
+//@ props: C05 C06 C11 C19
+//@ contract:
+//@|     requires
+//@|         old(self).wf(), 0 <= node_height_in_rch(&**node) <= old(self).mha(),
+//@|         forall|k: int| 0 <= k < old(self).queues@[node_height_in_rch(&**node) as int]@.len() ==> !same_node(&*#[trigger] old(self).queues@[node_height_in_rch(&**node) as int]@[k], &**node),
+//@|     ensures false, // [unlinking-a-node-that-is-not-queued-always-panics]
+//@end
+
+//@extract fn RecomputeHeap::remove
+//@ file: src/recompute_heap.rs
+//@ impl: impl RecomputeHeap
+//@ name: remove
+//@ as: fn remove(&mut self, node: NodeRef)
+//@ cells: length
+//@ props: C05 C06 C11 C19
+//@ contract:
+//@|     requires
+//@|         old(self).wf(), 0 <= node_height_in_rch(&*node) <= old(self).mha(), old(self).length > 0,
+//@|         !node_needs_to_be_computed(&*node),
+//@|         exists|k: int| 0 <= k < old(self).queues@[node_height_in_rch(&*node) as int]@.len() && same_node(&*#[trigger] old(self).queues@[node_height_in_rch(&*node) as int]@[k], &*node),
+//@|     ensures
+//@|         final(self).length == old(self).length - 1, // [one-less-queued]
+//@|         final(self).queues@.len() == old(self).queues@.len(), // [limit-unchanged]
+//@|         final(self).queues@[node_height_in_rch(&*node) as int]@.len() == old(self).queues@[node_height_in_rch(&*node) as int]@.len() - 1, // [one-node-leaves-the-bucket-it-was-queued-in]
+//@|         forall|i: int| 0 <= i < old(self).queues@.len() && i != node_height_in_rch(&*node) ==> (#[trigger] final(self).queues@[i]) == old(self).queues@[i], // [other-buckets-untouched]
+//@|         final(self).height_lower_bound == old(self).height_lower_bound, // [frame]
+//@end
+
+//@extract fn RecomputeHeap::increase_height
+//@ file: src/recompute_heap.rs
+//@ impl: impl RecomputeHeap
+//@ name: increase_height
+//@ as: fn increase_height(&mut self, node: &NodeRef)
+//@ props: C05 C06 C11 C19
+//@ contract:
+//@|     requires
+//@|         old(self).wf(), 0 <= node_height_in_rch(&**node) < node_height(&**node) <= old(self).mha(),
+//@|         exists|k: int| 0 <= k < old(self).queues@[node_height_in_rch(&**node) as int]@.len() && same_node(&*#[trigger] old(self).queues@[node_height_in_rch(&**node) as int]@[k], &**node),
+//@|     ensures
+//@|         final(self).queues@.len() == old(self).queues@.len(), // [limit-unchanged]
+//@|         final(self).queues@[node_height_in_rch(&**node) as int]@.len() == old(self).queues@[node_height_in_rch(&**node) as int]@.len() - 1, // [leaves-the-bucket-of-its-old-height]
+//@|         final(self).queues@[node_height(&**node) as int]@ == old(self).queues@[node_height(&**node) as int]@.push(*node), // [requeued-in-the-bucket-of-its-new-height]
+//@|         forall|i: int| 0 <= i < old(self).queues@.len() && i != node_height_in_rch(&**node) && i != node_height(&**node) ==> (#[trigger] final(self).queues@[i]) == old(self).queues@[i], // [other-buckets-untouched]
+//@|         final(self).height_lower_bound == old(self).height_lower_bound && final(self).length == old(self).length, // [frame]
+//@end
+
+//@extract fn RecomputeHeap::remove_min
+//@ file: src/recompute_heap.rs
+//@ impl: impl RecomputeHeap
+//@ name: remove_min
+//@ as: fn remove_min(&mut self) -> (r: Option<NodeRef>)
+//@ attr: #[verifier::exec_allows_no_decreases_clause]
+//@ cells: height_lower_bound, length
+//@ rule R5: `let queues = (&self.queues);` => `let queues = &mut self.queues;` x1
+//@ rule R5: `let mut queue;` => `let mut queue: &mut RQueue;` x1
+//@ rule R5: `queues.get(` => `queues.get_mut(` x1
+//@ rule R5: `queue.borrow().is_empty()` => `queue.is_empty()` x1
+//@ rule R5: `let mut q = queue.borrow_mut();` => `let q = queue;` x1
+//@ props: C05 C06 C11 C19
+//@ contract:
+//@|     requires old(self).sched_inv(),
+//@|     ensures
+//@|         old(self).length == 0 ==> r is None && *final(self) == *old(self), // [nothing-queued-nothing-returned-nothing-changed]
+//@|         old(self).length > 0 ==> r is Some, // [a-queued-node-is-always-found]
+//@|         r is Some ==> old(self).height_lower_bound <= final(self).height_lower_bound < old(self).queues@.len(), // [lower-bound-only-rises-to-the-bucket-served]
+//@|         r is Some ==> (forall|i: int| 0 <= i < final(self).height_lower_bound ==> (#[trigger] old(self).queues@[i])@.len() == 0), // [no-node-was-queued-at-a-lower-height]
+//@|         r is Some ==> old(self).queues@[final(self).height_lower_bound as int]@.len() > 0 && r.unwrap() == old(self).queues@[final(self).height_lower_bound as int]@[0], // [returns-the-oldest-node-of-the-lowest-non-empty-bucket]
+//@|         r is Some ==> final(self).queues@.len() == old(self).queues@.len() && final(self).queues@[final(self).height_lower_bound as int]@ == old(self).queues@[final(self).height_lower_bound as int]@.subrange(1, old(self).queues@[final(self).height_lower_bound as int]@.len() as int), // [exactly-that-node-leaves-its-bucket]
+//@|         r is Some ==> (forall|i: int| 0 <= i < old(self).queues@.len() && i != final(self).height_lower_bound ==> (#[trigger] final(self).queues@[i]) == old(self).queues@[i]), // [other-buckets-untouched]
+//@|         r is Some ==> final(self).length == old(self).length - 1, // [one-less-queued]
+//@ loop 0:
+//@|     invariant_except_break
+//@|         0 <= old(self).height_lower_bound <= self.height_lower_bound, queues@ =~= old(self).queues@, queues@.len() == len, len <= 0x7fff_ffff, self.length == old(self).length, self.length > 0,
+//@|         forall|i: int| 0 <= i < self.height_lower_bound && i < len ==> (#[trigger] old(self).queues@[i])@.len() == 0,
+//@|         exists|j: int| self.height_lower_bound <= j < len && (#[trigger] old(self).queues@[j])@.len() > 0,
+//@|     ensures
+//@|         0 <= old(self).height_lower_bound <= self.height_lower_bound < len, self.length == old(self).length, self.length > 0, len == old(self).queues@.len(),
+//@|         forall|i: int| 0 <= i < self.height_lower_bound ==> (#[trigger] old(self).queues@[i])@.len() == 0,
+//@|         *queue == old(self).queues@[self.height_lower_bound as int], queue@.len() > 0,
+//@|         final(queues)@ == old(self).queues@.update(self.height_lower_bound as int, *final(queue)),
+//@end
+
 //@extract fn RecomputeHeap::link!too_high
 //@ file: src/recompute_heap.rs
 //@ impl: impl RecomputeHeap
@@ -474,6 +650,99 @@ proof fn lemma_insert_keeps_every_queued_node_reachable(o: RecomputeHeap, f: Rec
     }
 }
 
+
+/// number of queued nodes, bucket by bucket
+pub open spec fn sum_len(q: Seq<RQueue>) -> nat
+    decreases q.len(),
+{
+    if q.len() == 0 { 0 } else { sum_len(q.drop_last()) + q.last()@.len() }
+}
+
+proof fn lemma_sum_len_update(q: Seq<RQueue>, i: int, x: RQueue)
+    requires 0 <= i < q.len(),
+    ensures sum_len(q.update(i, x)) == sum_len(q) - q[i]@.len() + x@.len(),
+    decreases q.len(),
+{
+    if i == q.len() - 1 {
+        assert(q.update(i, x).drop_last() =~= q.drop_last());
+    } else {
+        assert(q.update(i, x).drop_last() =~= q.drop_last().update(i, x));
+        lemma_sum_len_update(q.drop_last(), i, x);
+    }
+}
+
+proof fn lemma_sum_len_positive_has_nonempty(q: Seq<RQueue>)
+    requires sum_len(q) > 0,
+    ensures exists|j: int| 0 <= j < q.len() && (#[trigger] q[j])@.len() > 0,
+    decreases q.len(),
+{
+    if q.len() > 0 {
+        if q.last()@.len() > 0 {
+            assert(q[q.len() - 1]@.len() > 0);
+        } else {
+            lemma_sum_len_positive_has_nonempty(q.drop_last());
+            let j = choose|j: int| 0 <= j < q.drop_last().len() && (#[trigger] q.drop_last()[j])@.len() > 0;
+            assert(q[j]@.len() > 0);
+        }
+    }
+}
+
+/// scheduling, liveness half: if the length counts the queued nodes and no node lies below the lower bound, then a
+/// non-zero length means a node is queued at or above the lower bound - the precondition under which remove_min is
+/// proved to find it (clause a-queued-node-is-always-found)
+proof fn lemma_counted_heap_satisfies_the_scheduler_invariant(h: RecomputeHeap)
+    requires h.wf(), h.lower_bound_ok(), 0 <= h.height_lower_bound, h.length == sum_len(h.queues@),
+    ensures h.sched_inv(),
+{
+    if h.length > 0 {
+        lemma_sum_len_positive_has_nonempty(h.queues@);
+        let j = choose|j: int| 0 <= j < h.queues@.len() && (#[trigger] h.queues@[j])@.len() > 0;
+        assert(h.height_lower_bound <= j);
+    }
+}
+
+/// the clauses of `remove_min` keep the count exact and every queued node reachable
+proof fn lemma_remove_min_keeps_the_count_and_the_lower_bound(o: RecomputeHeap, f: RecomputeHeap)
+    requires
+        o.sched_inv(), o.length == sum_len(o.queues@), o.length > 0,
+        o.height_lower_bound <= f.height_lower_bound < o.queues@.len(),
+        forall|i: int| 0 <= i < f.height_lower_bound ==> (#[trigger] o.queues@[i])@.len() == 0,
+        o.queues@[f.height_lower_bound as int]@.len() > 0,
+        f.queues@.len() == o.queues@.len(),
+        f.queues@[f.height_lower_bound as int]@ == o.queues@[f.height_lower_bound as int]@.subrange(1, o.queues@[f.height_lower_bound as int]@.len() as int),
+        forall|i: int| 0 <= i < o.queues@.len() && i != f.height_lower_bound ==> (#[trigger] f.queues@[i]) == o.queues@[i],
+        f.length == o.length - 1,
+    ensures
+        f.length == sum_len(f.queues@), f.sched_inv(),
+{
+    let h = f.height_lower_bound as int;
+    assert(f.queues@ =~= o.queues@.update(h, f.queues@[h]));
+    lemma_sum_len_update(o.queues@, h, f.queues@[h]);
+    assert forall|i: int| 0 <= i < f.queues@.len() && i < f.height_lower_bound implies (#[trigger] f.queues@[i])@.len() == 0 by {
+        assert(f.queues@[i] == o.queues@[i]);
+        assert((#[trigger] o.queues@[i])@.len() == 0);
+    }
+    lemma_counted_heap_satisfies_the_scheduler_invariant(f);
+}
+
+/// the clauses of `insert` keep the count exact and every queued node reachable
+proof fn lemma_insert_keeps_the_count(o: RecomputeHeap, f: RecomputeHeap, h: int, node: NodeRef)
+    requires
+        o.wf(), o.lower_bound_ok(), 0 <= o.height_lower_bound, o.length == sum_len(o.queues@), 0 <= h < o.queues@.len(),
+        f.length == o.length + 1,
+        f.height_lower_bound == (if h < o.height_lower_bound { h } else { o.height_lower_bound as int }),
+        f.queues@.len() == o.queues@.len(),
+        f.queues@[h]@ == o.queues@[h]@.push(node),
+        forall|i: int| 0 <= i < o.queues@.len() && i != h ==> (#[trigger] f.queues@[i]) == o.queues@[i],
+    ensures
+        f.length == sum_len(f.queues@), f.sched_inv(),
+{
+    assert(f.queues@ =~= o.queues@.update(h, f.queues@[h]));
+    lemma_sum_len_update(o.queues@, h, f.queues@[h]);
+    lemma_insert_keeps_every_queued_node_reachable(o, f, h);
+    lemma_counted_heap_satisfies_the_scheduler_invariant(f);
+}
+
 // ---- State: the public entry points for the limit and the nested-stabilise guard (R5 on status and
 //      adjust_heights_heap; every other field of State is dropped: no function below touches it) ----
 //@extract enum IncrStatus
@@ -496,8 +765,10 @@ impl Node {
 }
 
 impl RecomputeHeap {
+    // in stabilise_debug the scheduler's invariant would have to be preserved by stabilise_start and Node::recompute,
+    // which are not under contract: the call there goes to this opaque stub (rule R8 on that extract)
     #[verifier::external_body]
-    pub(crate) fn remove_min(&mut self) -> (r: Option<NodeRef>) { unimplemented!() }
+    pub(crate) fn remove_min__opaque(&mut self) -> (r: Option<NodeRef>) { unimplemented!() }
 }
 
 impl State {
@@ -598,6 +869,7 @@ impl State {
 //@ cells: status
 //@ cfg: release
 //@ tracing: yes
+//@ rule R8: `self.recompute_heap.remove_min()` => `self.recompute_heap.remove_min__opaque()` x1
 //@ props: C07 C13 C19
 //@ contract:
 //@|     requires old(self).status is NotStabilising,
@@ -613,6 +885,7 @@ impl State {
 //@ cfg: release
 //@ tracing: yes
 //@ panics: diverge
+//@ rule R8: `self.recompute_heap.remove_min()` => `self.recompute_heap.remove_min__opaque()` x1
 //@ props: C07 C13 C19
 //@ contract:
 //@|     requires !(old(self).status is NotStabilising),     // called from a node function (Stabilising) or a handler (RunningOnUpdateHandlers)
